@@ -476,6 +476,18 @@ pub fn run_path<S: Sut>(cfg: &Cfg, path: &PathRec<Post>, record: bool) -> (PathR
                 "Return" => {
                     drop(w.held.remove(&c));
                 }
+                "UnwindReturn" => {
+                    // the task that holds the connection propagates the panic of its closure: the connection is
+                    // dropped while that task unwinds
+                    if let Some(o) = w.held.remove(&c) {
+                        let h = tokio::spawn(async move {
+                            let o = o;
+                            o.interact(|_c| -> () { panic!("{}", INJECTED) }).await.unwrap();
+                        });
+                        let _ = tokio::time::timeout(LONG, h).await;
+                        w.damaged.insert(c, "panic");
+                    }
+                }
                 _ => {}
             }
             n += 1;
